@@ -233,9 +233,21 @@ fn visit_tcp(
     let mut server_uptime: Option<ObservableUptime> = None;
 
     while let Some(opt) = TcpOptionPacket::new(buf) {
+        // Every option except EOL and NOP carries a length byte that must cover kind + length and
+        // fit into what is left of the option area; otherwise the options are malformed (p0f: `bad`)
+        // and nothing after that point can be interpreted.
+        if opt.get_number() != EOL && opt.get_number() != NOP {
+            let well_formed =
+                matches!(buf.get(1), Some(&len) if len >= 2 && usize::from(len) <= buf.len());
+            if !well_formed {
+                quirks.push(Quirk::OptBad);
+                break;
+            }
+        }
         buf = &buf[opt.packet_size().min(buf.len())..];
 
         let data: &[u8] = opt.payload();
+        let mut bad_length = false;
 
         match opt.get_number() {
             EOL => {
@@ -250,6 +262,7 @@ fn visit_tcp(
             }
             MSS => {
                 olayout.push(TcpOption::Mss);
+                bad_length = data.len() != 2;
                 if data.len() >= 2 {
                     let mss_value: u16 = u16::from_be_bytes([data[0], data[1]]);
                     mss = Some(mss_value);
@@ -257,6 +270,7 @@ fn visit_tcp(
             }
             WSCALE => {
                 olayout.push(TcpOption::Ws);
+                bad_length = data.len() != 1;
 
                 // a window-scale option whose length byte leaves no payload carries no value
                 if let Some(&scale) = data.first() {
@@ -269,12 +283,16 @@ fn visit_tcp(
             }
             SACK_PERMITTED => {
                 olayout.push(TcpOption::Sok);
+                bad_length = !data.is_empty();
             }
             SACK => {
                 olayout.push(TcpOption::Sack);
+                // one to four 8-byte blocks
+                bad_length = !(8..=32).contains(&data.len());
             }
             TIMESTAMPS => {
                 olayout.push(TcpOption::TS);
+                bad_length = data.len() != 8;
 
                 if data.len() >= 4 {
                     let ts_val_bytes: [u8; 4] = data[..4].try_into().map_err(|_| {
@@ -324,6 +342,10 @@ fn visit_tcp(
             _ => {
                 olayout.push(TcpOption::Unknown(opt.get_number().0));
             }
+        }
+
+        if bad_length && !quirks.contains(&Quirk::OptBad) {
+            quirks.push(Quirk::OptBad);
         }
     }
 
